@@ -450,6 +450,10 @@ def notes_convention(tr, H):
         tr.witness_runs += 1
         tr.notes.append(f'dates: float64 rounding (outside the real-number model, not reported): distinct calendar dates {d} -> sampling_times '
                         f'{m.sampling_times.tolist()} (tie in heights without a tie in dates; needs dates closer than one ulp of max - date)')
+        m = H.build_model(t, 3, [2000, 2003, 2010])
+        tr.witness_runs += 1
+        tr.notes.append(f'dates: int dates (JSON 2000, 2003, 2010) give sampling_times {m.sampling_times.tolist()} of dtype {m.sampling_times.dtype} '
+                        f'(torch.tensor of Python ints); node_heights promotes to {m.node_heights.dtype}, values are right')
         d = [-1.0, 0.0, -0.5]
         m = H.build_model(t, 3, d)
         tr.witness_runs += 1
